@@ -37,6 +37,15 @@ pub enum Call {
     /// extra formulas built on the shared diagram, operands are the acceptance conditions and
     /// variables (interpreted like bddmodel ops on the issued list [bot, top, ac...])
     BddOps(Vec<Op>),
+    /// a listener is attached to the object's diagram store (`adf.bdd.set_sender`); with `true` it hangs up at once, so
+    /// that every node created from now on is reported to a closed channel (frontend builds only, otherwise a no-op)
+    Listener(bool),
+}
+
+#[cfg(any(feature = "frontend", not(feature = "probe")))]
+thread_local! {
+    /// listeners that stay alive (only the most recent ones are kept)
+    static LISTENERS: std::cell::RefCell<std::collections::VecDeque<crossbeam_channel::Receiver<adf_bdd::datatypes::BddNode>>> = std::cell::RefCell::new(std::collections::VecDeque::new());
 }
 
 impl Call {
@@ -57,12 +66,13 @@ impl Call {
             Call::FixImport => "fix_import",
             Call::PreRestrict(_) => "pre_restrict",
             Call::BddOps(_) => "bdd_ops",
+            Call::Listener(_) => "listener",
         }
     }
     pub fn is_semantics(&self) -> bool {
         !matches!(
             self,
-            Call::FormulaCountsNaive | Call::FacetCount | Call::PathQueries | Call::BddOps(_) | Call::FixImport | Call::PreRestrict(_)
+            Call::FormulaCountsNaive | Call::FacetCount | Call::PathQueries | Call::BddOps(_) | Call::FixImport | Call::PreRestrict(_) | Call::Listener(_)
         )
     }
 }
@@ -83,6 +93,7 @@ pub fn call_strategy(with_bdd_ops: bool) -> BoxedStrategy<Call> {
         2 => Just(Call::PathQueries),
         1 => Just(Call::FixImport),
         2 => any::<bool>().prop_map(Call::PreRestrict),
+        1 => proptest::bool::weighted(0.7).prop_map(Call::Listener),
     ];
     if with_bdd_ops {
         prop_oneof![
@@ -178,6 +189,24 @@ pub fn exec(adf: &mut Adf, call: &Call) -> Result<Raw, String> {
         ),
         Call::FixImport => {
             adf.fix_import();
+            Raw::Numbers(vec![])
+        }
+        Call::Listener(hang_up) => {
+            #[cfg(any(feature = "frontend", not(feature = "probe")))]
+            {
+                let (s, r) = crossbeam_channel::unbounded();
+                adf.bdd.set_sender(s);
+                if !*hang_up {
+                    LISTENERS.with(|l| {
+                        let mut l = l.borrow_mut();
+                        l.push_back(r);
+                        if l.len() > 32 {
+                            l.pop_front();
+                        }
+                    });
+                }
+            }
+            let _ = hang_up;
             Raw::Numbers(vec![])
         }
         Call::PreRestrict(desc) => {
